@@ -3,6 +3,7 @@
    of runpp results is searched differentially by harness/props/c05.py. *)
 From Coq Require Import QArith List Bool Arith Permutation.
 From PPV Require Import Base.QN Base.QC Base.C07Graph C07.Model C07.UnionFind C05.Model C05.Proofs.
+From PPV Require C31.Model C02.Model C02.Proofs C05.BranchProofs.
 Import ListNotations.
 
 (* fuse_lookup: two buses share a ppc row iff connected by closed zero-impedance bus-bus switches between in-service buses *)
@@ -63,6 +64,93 @@ Print Assumptions C05_parallel_n_lines.
 Theorem C05_swap_line_ends : forall p vf vt, s_from p vt vf ==c s_to p vf vt /\ s_to p vt vf ==c s_from p vf vt.
 Proof. exact line_swap_flows. Qed.
 Print Assumptions C05_swap_line_ends.
+
+(* ------------------------------------------------------------------ sn_mva invariance of transformer / impedance rows
+   (rows, Ybus stamps and pfsoln flows: the model C02/Model.v of build_branch.py, makeYbus.py, pfsoln.py) *)
+Module Br.
+Import C31.Model C02.Model C02.Proofs C05.BranchProofs.
+(* two branch rows that are the same element on two system bases (impedances * k, admittances / k, k = sn2/sn1, same
+   tap / shift / status) yield the same MW / Mvar terminal powers from the same per-unit voltages *)
+Theorem C05_sn_mva_invariance_rows : forall b1 b2 e vf vt sn1 sn2,
+  ~ sn1 == 0 -> ~ sn2 == 0 -> row_scaled (sn2 / sn1) b1 b2 -> b_stat b1 = true ->
+  ~ (b_r b1) * (b_r b1) + (b_x b1) * (b_x b1) == 0 ->
+  ~ (b_r b1 + b_ra b1) * (b_r b1 + b_ra b1) + (b_x b1 + b_xa b1) * (b_x b1 + b_xa b1) == 0 ->
+  ~ b_tap b1 == 0 -> re e * re e + im e * im e == 1 ->
+  Ceq2 (flows (stamps_core b1 e) vf vt sn1) (flows (stamps_core b2 e) vf vt sn2).
+Proof. exact flows_sn_scale. Qed.
+Print Assumptions C05_sn_mva_invariance_rows.
+
+(* impedance element: the row built by _calc_impedance_parameters_from_dataframe on base sn2 is the rescaled row of
+   base sn1, and its terminal powers do not depend on net.sn_mva *)
+Theorem C05_impedance_row_scaled : forall sn1 sn2 i, ~ sn1 == 0 -> ~ sn2 == 0 -> ~ i_sn i == 0 ->
+  row_scaled (sn2 / sn1) (impedance_branch sn1 i) (impedance_branch sn2 i).
+Proof. exact impedance_row_scaled. Qed.
+Print Assumptions C05_impedance_row_scaled.
+Theorem C05_sn_mva_invariance_impedance : forall sn1 sn2 i vf vt,
+  i_in i = true -> ~ sn1 == 0 -> ~ sn2 == 0 -> ~ i_sn i == 0 ->
+  ~ i_rft i * i_rft i + i_xft i * i_xft i == 0 -> ~ i_rtf i * i_rtf i + i_xtf i * i_xtf i == 0 ->
+  Ceq2 (flows (stamps_core (impedance_branch sn1 i) C1) vf vt sn1)
+       (flows (stamps_core (impedance_branch sn2 i) C1) vf vt sn2).
+Proof. exact impedance_sn_invariant. Qed.
+Print Assumptions C05_sn_mva_invariance_impedance.
+(* swapping the ends of an impedance element (z_ft <-> z_tf, y_f <-> y_t, voltages exchanged) swaps its terminal flows *)
+Theorem C05_swap_impedance_ends : forall sn i vf vt,
+  i_in i = true -> ~ sn == 0 -> ~ i_sn i == 0 ->
+  ~ i_rft i * i_rft i + i_xft i * i_xft i == 0 -> ~ i_rtf i * i_rtf i + i_xtf i * i_xtf i == 0 ->
+  let s := flows (stamps_core (impedance_branch sn i) C1) vf vt sn in
+  Ceq2 (flows (stamps_core (impedance_branch sn (imp_swap i)) C1) vt vf sn) (snd s, fst s).
+Proof. exact impedance_swap_flows. Qed.
+Print Assumptions C05_swap_impedance_ends.
+
+(* transformer (trafo_model = "pi"): with the sqrt oracles of the two runs satisfying their defining equations, the row
+   on base sn2 is the rescaled row of base sn1 (r, x * k; g, b / k; same ratio and shift), hence the hv / lv powers in
+   MW / Mvar do not depend on net.sn_mva *)
+Theorem C05_trafo_row_scaled : forall sn1 sn2 t o1 o2 vnh vnl shift basehv baselv,
+  0 < sn1 -> 0 < sn2 -> ~ t_sn t == 0 -> ~ t_par t == 0 -> ~ baselv == 0 -> ~ vnl == 0 -> ~ t_vnl0 t == 0 ->
+  o_x o1 * o_x o1 == fst (trafo_zr sn1 t vnl baselv) * fst (trafo_zr sn1 t vnl baselv)
+                     - snd (trafo_zr sn1 t vnl baselv) * snd (trafo_zr sn1 t vnl baselv) ->
+  o_x o2 * o_x o2 == fst (trafo_zr sn2 t vnl baselv) * fst (trafo_zr sn2 t vnl baselv)
+                     - snd (trafo_zr sn2 t vnl baselv) * snd (trafo_zr sn2 t vnl baselv) ->
+  0 <= o_x o1 -> 0 <= o_x o2 -> o_bm o1 * o_bm o1 == o_bm o2 * o_bm o2 -> 0 <= o_bm o1 -> 0 <= o_bm o2 ->
+  forall b1 b2,
+  trafo_branch sn1 false t o1 vnh vnl shift basehv baselv = Ok b1 ->
+  trafo_branch sn2 false t o2 vnh vnl shift basehv baselv = Ok b2 ->
+  row_scaled (sn2 / sn1) b1 b2.
+Proof. exact trafo_pi_row_scaled. Qed.
+Print Assumptions C05_trafo_row_scaled.
+Theorem C05_sn_mva_invariance_trafo : forall sn1 sn2 t o1 o2 vnh vnl shift basehv baselv,
+  0 < sn1 -> 0 < sn2 -> ~ t_sn t == 0 -> ~ t_par t == 0 -> ~ baselv == 0 -> ~ vnl == 0 -> ~ t_vnl0 t == 0 ->
+  o_x o1 * o_x o1 == fst (trafo_zr sn1 t vnl baselv) * fst (trafo_zr sn1 t vnl baselv)
+                     - snd (trafo_zr sn1 t vnl baselv) * snd (trafo_zr sn1 t vnl baselv) ->
+  o_x o2 * o_x o2 == fst (trafo_zr sn2 t vnl baselv) * fst (trafo_zr sn2 t vnl baselv)
+                     - snd (trafo_zr sn2 t vnl baselv) * snd (trafo_zr sn2 t vnl baselv) ->
+  0 <= o_x o1 -> 0 <= o_x o2 -> o_bm o1 * o_bm o1 == o_bm o2 * o_bm o2 -> 0 <= o_bm o1 -> 0 <= o_bm o2 ->
+  forall b1 b2 e vf vt,
+  trafo_branch sn1 false t o1 vnh vnl shift basehv baselv = Ok b1 ->
+  trafo_branch sn2 false t o2 vnh vnl shift basehv baselv = Ok b2 ->
+  b_stat b1 = true -> ~ (b_r b1) * (b_r b1) + (b_x b1) * (b_x b1) == 0 -> ~ b_tap b1 == 0 ->
+  re e * re e + im e * im e == 1 ->
+  Ceq2 (flows (stamps_core b1 e) vf vt sn1) (flows (stamps_core b2 e) vf vt sn2).
+Proof. exact trafo_pi_sn_invariant. Qed.
+Print Assumptions C05_sn_mva_invariance_trafo.
+
+(* relabelling: the ppc row of a transformer (bus positions, per-unit parameters) commutes with an injective
+   relabelling of the buses when the lookup tables are relabelled with it *)
+Theorem C05_trafo_row_relabel : forall f idx bkv bkv' hv lv sn m t o vnh vnl shift,
+  (forall x y, f x = f y -> x = y) -> (forall b, bkv' (f b) = bkv b) ->
+  trafo_ppc_row (map f idx) bkv' (f hv) (f lv) sn m t o vnh vnl shift = trafo_ppc_row idx bkv hv lv sn m t o vnh vnl shift.
+Proof. exact trafo_row_relabel. Qed.
+Print Assumptions C05_trafo_row_relabel.
+Example C05_trafo_sn_nonvacuous :
+  (o_x w_o1 * o_x w_o1 == fst (trafo_zr 1 w_trafo 1 1) * fst (trafo_zr 1 w_trafo 1 1)
+                          - snd (trafo_zr 1 w_trafo 1 1) * snd (trafo_zr 1 w_trafo 1 1)) /\
+  (o_x w_o2 * o_x w_o2 == fst (trafo_zr 4 w_trafo 1 1) * fst (trafo_zr 4 w_trafo 1 1)
+                          - snd (trafo_zr 4 w_trafo 1 1) * snd (trafo_zr 4 w_trafo 1 1)) /\
+  exists b1 b2, trafo_branch 1 false w_trafo w_o1 1 1 0 1 1 = Ok b1 /\ trafo_branch 4 false w_trafo w_o2 1 1 0 1 1 = Ok b2 /\
+    b_stat b1 = true /\ b_r b1 == 3 # 100 /\ b_x b1 == 4 # 100 /\ b_r b2 == 12 # 100 /\ b_x b2 == 16 # 100 /\ b_tap b1 == 1.
+Proof. exact trafo_sn_nonvacuous. Qed.
+Print Assumptions C05_trafo_sn_nonvacuous.
+End Br.
 
 (* the Newton convergence test compares the per-unit mismatch with tolerance_mva: on base 1 MVA it is the documented
    test; on another base a mismatch 50 times the tolerance passes (the sn_mva sentence holds only up to sn_mva*tolerance) *)
